@@ -44,6 +44,14 @@ def main():
     chk.count("no_verdict_budget", totals["nobudget"])
     chk.count("builtins_total", len(names))
     chk.count("builtins_with_charged_calls", len([k for k in chk.counters if k.startswith("b:")]))
+    if not quick:
+        # sanitizer lanes: Miri on the bitwise / conversion builtins (pure Rust over bitvec's
+        # unsafe), valgrind memcheck on the FFI builtins (blst, secp256k1) with boundary lengths
+        import lanes
+        from common import Rng
+
+        lanes.miri(chk, "C04", "bitwise", [chk.seed * 100 + i for i in range(16)], 40)
+        lanes.valgrind(chk, "C04", "ffi-builtins", lanes.ffi_jobs(Rng(chk.seed, 404), 400))
     chk.assumptions = [
         "reference builtins in oracles/uplc_ref/builtins.py + bls.py are the trusted base (calibrated on 1340 upstream goldens); hashToGroup has no independent implementation: cases that need it are inconclusive",
         "integer arguments that the Haskell implementation unlifts as machine Int follow the upstream goldens (out-of-Int64 => evaluation failure)",
